@@ -27,7 +27,8 @@ with warnings.catch_warnings():
 from twisted.python.failure import Failure
 
 from pymodbus.client.asynchronous.twisted import (ModbusClientProtocol, ModbusSerClientProtocol,
-                                                  ModbusUdpClientProtocol, ModbusClientFactory)
+                                                  ModbusUdpClientProtocol, ModbusClientFactory,
+                                                  ModbusTcpClientProtocol)
 from pymodbus.exceptions import ConnectionException
 from pymodbus.factory import ClientDecoder, ServerDecoder
 from pymodbus.framer.socket_framer import ModbusSocketFramer
@@ -85,6 +86,13 @@ class Real(object):
             self.builder = ModbusSocketFramer(ServerDecoder())
         elif self.kind == 'factory':
             self.proto = ModbusClientFactory().buildProtocol(None)
+            self.builder = ModbusSocketFramer(ServerDecoder())
+        elif self.kind == 'tcpcls':
+            # what pymodbus.client.asynchronous.factory.tcp.reactor_factory builds: no framer argument
+            self.proto = ModbusTcpClientProtocol()
+            self.builder = ModbusSocketFramer(ServerDecoder())
+        elif self.kind == 'bare':
+            self.proto = ModbusClientProtocol()
             self.builder = ModbusSocketFramer(ServerDecoder())
         elif variant == 'dict':
             self.proto = ModbusClientProtocol(ModbusSocketFramer(ClientDecoder()))
@@ -192,6 +200,16 @@ class Real(object):
         except Exception as e:  # noqa
             self.events.append(['exc', errkind(e)])
         return self.take()
+
+    def apply_data(self, chunk):
+        """raw bytes arriving on this connection (any chunking); returns (events, marks): marks = positions in the
+        event list where a call of _handleResponse starts"""
+        self.marks = []
+        try:
+            self.proto.dataReceived(bytes(bytearray(chunk)))
+        except Exception as e:  # noqa
+            self.events.append(['exc', errkind(e)])
+        return self.take(), list(self.marks)
 
     def apply_replies(self, ops):
         """several reply frames in ONE dataReceived call; returns one event list per frame"""
@@ -658,6 +676,279 @@ def reentrant_loss(rng, variant, n):
     return dict(kind='hist', variant=variant, unit=1, ops=ops, join=[], tag='reentrant-loss')
 
 
+
+# ------------------------------------------------------------------ several protocol objects in one process
+NET_CLASSES = {'dict': ['tcpcls', 'bare', 'factory'], 'fifo': ['serial']}
+
+
+def run_real_net(case):
+    """history over several protocol objects.  ops: ['open'] | ['on', i, op]; op = an `async` op or ['data', bytes].
+    Returns (segs, marks per op, per-connection states)."""
+    conns, segs, marks = [], [], []
+    for op in case['ops']:
+        if op[0] == 'open':
+            conns.append(Real(case['variant'], case.get('unit', 1), case['cls']))
+            segs.append([])
+            marks.append(None)
+            continue
+        _, i, o = op
+        if i >= len(conns):
+            segs.append([])
+            marks.append(None)
+        elif o[0] == 'data':
+            es, mk = conns[i].apply_data(o[1])
+            segs.append(es)
+            marks.append(mk)
+        else:
+            segs.append(conns[i].apply(o))
+            marks.append(None)
+    states = []
+    for r in conns:
+        st = r.state()
+        st['buffered'] = len(r.proto.framer._buffer)
+        states.append(st)
+    # the objects must not share mutable per-connection state
+    shared = []
+    for a in range(len(conns)):
+        for b in range(a + 1, len(conns)):
+            if conns[a].proto.framer is conns[b].proto.framer:
+                shared.append('framer of #%d and #%d' % (a, b))
+            if conns[a].proto.transaction is conns[b].proto.transaction:
+                shared.append('transaction manager of #%d and #%d' % (a, b))
+    return segs, marks, states, shared
+
+
+def parse_stream(variant, stream):
+    """frames (start, end, tid, tag, uid) of read-holding replies in the bytes of ONE connection (the oracle: what
+    this connection's own byte stream says, whatever other connections received)"""
+    out, p = [], 0
+    n = len(stream)
+    while True:
+        if variant == 'dict':
+            if n - p < 8:
+                break
+            tid = stream[p] * 256 + stream[p + 1]
+            ln = stream[p + 4] * 256 + stream[p + 5]
+            end = p + 6 + ln
+            if end > n:
+                break
+            regs = stream[p + 9:end]
+            out.append((p, end, tid, regs[0] * 256 + regs[1] if len(regs) >= 2 else -1, stream[p + 6]))
+        else:
+            if n - p < 3:
+                break
+            end = p + 3 + stream[p + 2] + 2
+            if end > n:
+                break
+            regs = stream[p + 3:end - 2]
+            out.append((p, end, stream[p], regs[0] * 256 + regs[1] if len(regs) >= 2 else -1, stream[p]))
+        p = end
+    return out
+
+
+def conn_view(variant, case, segs, marks, i):
+    """the history of connection i as a single-connection history for check_trace: every data operation becomes
+    the `reply` operations of the frames that its bytes complete on THIS connection's stream"""
+    stream, ops, out_segs = [], [], []
+    frames_done = 0
+    for op, es, mk in zip(case['ops'], segs, marks):
+        if op[0] == 'open' or op[1] != i:
+            continue
+        o = op[2]
+        if o[0] != 'data':
+            ops.append(o)
+            out_segs.append(es)
+            continue
+        stream += list(o[1])
+        frames = parse_stream(variant, stream)
+        new = frames[frames_done:]
+        frames_done = len(frames)
+        if not new:
+            if es:
+                ops.append(['reply', -1, -1])       # bytes that complete no frame must cause nothing
+                out_segs.append(es)
+            continue
+        if mk is not None and len(mk) == len(new):
+            cuts = mk[1:] + [len(es)]
+            parts, a = [], 0
+            for c in cuts:
+                parts.append(es[a:c])
+                a = c
+        else:
+            parts = [es] + [[] for _ in new[1:]]
+        for (st, en, tid, tag, uid), part in zip(new, parts):
+            ops.append(['reply', tid, tag])
+            out_segs.append(part)
+    return ops, out_segs
+
+
+def model_conn_state(variant, c):
+    pend = c['pending'] if variant == 'dict' else [p[1] for p in c['pending']]
+    return {'pending': pend, 'tid': c['tid'], 'connected': 1 if c['connected'] else 0, 'next_id': c['next_id'],
+            'buffered': c['buffered']}
+
+
+def check_net_cases(ctx, rep, cases):
+    reals = [run_real_net(c) for c in cases]
+    answers = ctx.driver.query([{'op': 'asyncnet', 'variant': c['variant'], 'ops': c['ops']} for c in cases])
+    stats = rep.extra.setdefault('c16_stats', {})
+    for case, (segs, marks, states, shared), ans in zip(cases, reals, answers):
+        variant = case['variant']
+        nfired = sum(1 for s in segs for e in s if e[0] in ('cb', 'eb'))
+        partial = any(st['buffered'] for st in states)
+        rep.case(case, nontrivial=nfired > 0, tag='%s-net-%s-%s' % (variant, case['cls'], case.get('tag', 'x')))
+        rep.sample({k: v for k, v in case.items()} if len(str(case)) < 700 else {'kind': 'net', 'ops': len(case['ops'])}, cap=6)
+        stats['net_histories'] = stats.get('net_histories', 0) + 1
+        stats['net_with_partial_frame_left'] = stats.get('net_with_partial_frame_left', 0) + (1 if partial else 0)
+        rep.compare(case, {'segs': segs, 'conns': states},
+                    {'segs': ans['segs'], 'conns': [model_conn_state(variant, c) for c in ans['conns']]},
+                    'multi-connection event trace / per-connection state vs Model.AsyncNet')
+        for what in shared:
+            rep.violation('two protocol objects share the %s (state that must be per connection)' % what, case,
+                          clause='private')
+        for i, st in enumerate(states):
+            ops_i, segs_i = conn_view(variant, case, segs, marks, i)
+            table_ids = [p[1] for p in st['pending']] if variant == 'dict' else list(st['pending'])
+            problems, _w = check_trace(variant, ops_i, segs_i, table_ids, stats)
+            for clause, text in problems:
+                rep.violation('C16 clause `%s` fails on connection %d of a multi-connection history: %s' % (
+                    clause, i, text), case, clause=clause, connection=i)
+
+
+class NetSim(object):
+    """generator-side bookkeeping over several real protocol objects (tids outstanding per connection)"""
+
+    def __init__(self, variant, cls, unit):
+        self.variant, self.cls, self.unit = variant, cls, unit
+        self.conns, self.out, self.ops = [], [], []
+
+    def open(self):
+        self.conns.append(Real(self.variant, self.unit, self.cls))
+        self.out.append({})
+        self.ops.append(['open'])
+        return len(self.conns) - 1
+
+    def note(self, i, es):
+        for e in es:
+            if e[0] == 'sent':
+                self.out[i][e[1]] = e[2]
+            elif e[0] in ('cb', 'eb'):
+                self.out[i].pop(e[1], None)
+
+    def on(self, i, o):
+        self.ops.append(['on', i, o])
+        if o[0] == 'data':
+            es, _ = self.conns[i].apply_data(o[1])
+        else:
+            es = self.conns[i].apply(o)
+        self.note(i, es)
+
+    def frame(self, i, t, tag, nregs=1):
+        r = self.conns[i]
+        resp = ReadHoldingRegistersResponse([tag & 0xFFFF] + [7] * (nregs - 1))
+        resp.transaction_id = t
+        resp.unit_id = self.unit
+        return list(bytearray(r.builder.buildPacket(resp)))
+
+    def replies_for(self, rng, i, shuffle=True):
+        """the reply frames for everything outstanding on connection i (random order for TCP), as one byte stream"""
+        tids = list(self.out[i].values())
+        if shuffle and self.variant == 'dict':
+            rng.shuffle(tids)
+        stream = []
+        for t in tids:
+            stream += self.frame(i, t if self.variant == 'dict' else self.unit, rng.choice([5, 77, 300, 65535, rng.randrange(65536)]),
+                                 rng.choice([1, 1, 2, 4]))
+        return stream
+
+    def case(self, tag):
+        return dict(kind='net', variant=self.variant, cls=self.cls, unit=self.unit, ops=self.ops, tag=tag)
+
+
+def cut_chunks(rng, stream, k):
+    if len(stream) < 2:
+        return [stream] if stream else []
+    cuts = sorted(set(rng.randrange(1, len(stream)) for _ in range(k)))
+    pts = [0] + cuts + [len(stream)]
+    return [stream[a:b] for a, b in zip(pts, pts[1:])]
+
+
+def net_reconnect(rng, variant, cls):
+    """connection A receives part of a reply and is lost; a NEW protocol object B (the reconnect) receives whole
+    replies, then chunked ones"""
+    s = NetSim(variant, cls, rng.choice([1, 1, 2, 3, 17]))
+    a = s.open()
+    s.on(a, ['made'])
+    for _ in range(rng.randrange(1, 4)):
+        s.on(a, ['exec', gen_req(rng, 1)])
+    stream = s.replies_for(rng, a)
+    cut = rng.randrange(1, len(stream))
+    for ch in cut_chunks(rng, stream[:cut], rng.randrange(0, 2)):
+        s.on(a, ['data', ch])
+    s.on(a, ['lost'])
+    b = s.open()
+    s.on(b, ['made'])
+    for _ in range(rng.randrange(1, 4)):
+        s.on(b, ['exec', gen_req(rng, 1)])
+    s.on(b, ['data', s.replies_for(rng, b)])            # whole replies in one read
+    for _ in range(rng.randrange(0, 3)):
+        s.on(b, ['exec', None])
+    for ch in cut_chunks(rng, s.replies_for(rng, b), rng.randrange(0, 3)):
+        s.on(b, ['data', ch])
+    if rng.random() < 0.5:
+        s.on(b, ['lost'])
+    return s.case('reconnect')
+
+
+def net_interleaved(rng, variant, cls, nconn=2):
+    """several live connections whose chunked replies interleave"""
+    s = NetSim(variant, cls, rng.choice([1, 1, 2, 3, 17]))
+    ids = [s.open() for _ in range(nconn)]
+    for i in ids:
+        s.on(i, ['made'])
+    for _ in range(rng.randrange(1, 3)):
+        for i in ids:
+            for _ in range(rng.randrange(1, 4)):
+                s.on(i, ['exec', gen_req(rng, 1)])
+        queues = [cut_chunks(rng, s.replies_for(rng, i), rng.randrange(1, 5)) for i in ids]
+        while any(queues):
+            i = rng.choice([k for k, q in enumerate(queues) if q])
+            s.on(ids[i], ['data', queues[i].pop(0)])
+    for i in ids:
+        if rng.random() < 0.5:
+            s.on(i, rng.choice([['lost'], ['close', 1]]))
+    return s.case('interleaved%d' % nconn)
+
+
+def net_random(rng, variant, cls, length):
+    s = NetSim(variant, cls, rng.choice([1, 2, 3, 247]))
+    pend = {}          # connection -> bytes not yet delivered
+    s.open()
+    for _ in range(length):
+        r = rng.random()
+        i = rng.randrange(len(s.conns))
+        if r < 0.08 and len(s.conns) < 4:
+            s.open()
+        elif r < 0.2:
+            s.on(i, ['made'])
+        elif r < 0.5:
+            s.on(i, ['exec', gen_req(rng, 2)])
+        elif r < 0.85:
+            if not pend.get(i) and s.out[i]:
+                pend[i] = s.replies_for(rng, i)
+            if pend.get(i):
+                k = rng.randrange(1, len(pend[i]) + 1)
+                s.on(i, ['data', pend[i][:k]])
+                pend[i] = pend[i][k:]
+            else:
+                s.on(i, ['reply', rng.randrange(5) if variant == 'dict' else s.unit, 9])
+        elif r < 0.93:
+            s.on(i, ['lost'])
+        else:
+            s.on(i, ['close', rng.randrange(2)])
+    return s.case('random')
+
+
 WRAP_CASES = [
     # request 0 stays outstanding while 65536 further requests are issued and answered: request 65536 gets tid 1
     # again; the reply with tid 1 then goes to request 65536, request 0 never fires, not even on connection loss
@@ -669,7 +960,7 @@ WRAP_CASES = [
 def run(ctx):
     rep = Report(RULE)
     rng = ctx.rng
-    corpus = [c for c in ctx.corpus() if c.get('kind') in ('hist', 'wrap')]
+    corpus = [c for c in ctx.corpus() if c.get('kind') in ('hist', 'wrap', 'net')]
     small = [c for c in corpus if c.get('kind') == 'hist']
     check_cases(ctx, rep, small)
     # fixed scenarios: re-entrant retry during connection loss
@@ -715,6 +1006,18 @@ def run(ctx):
     if ctx.quick:
         batch = [gen_random(rng, v, 40, 150, tag='wide') for v in ('dict', 'fifo')]
         check_cases(ctx, rep, batch)
+    # several protocol objects in one process (reconnects, simultaneous connections), replies in chunks
+    check_net_cases(ctx, rep, [c for c in corpus if c.get('kind') == 'net'])
+    for i in range(ctx.scale(25, 400)):
+        if ctx.time_left() < ctx.scale(20, 120):
+            break
+        batch = []
+        for variant in ('dict', 'fifo'):
+            for cls in NET_CLASSES[variant]:
+                batch.append(net_reconnect(rng, variant, cls))
+                batch.append(net_interleaved(rng, variant, cls, rng.choice([2, 2, 3])))
+                batch.append(net_random(rng, variant, cls, rng.choice([15, 30, 60])))
+        check_net_cases(ctx, rep, batch)
     # the 16-bit wrap (known finding): always from the corpus; thorough adds the serial variant and variations
     wraps = [c for c in corpus if c.get('kind') == 'wrap'] or list(WRAP_CASES)
     if not ctx.quick:
@@ -742,14 +1045,15 @@ def replay(ctx, payload):
     else:
         cs = [payload['case']]
     for c in cs:
-        if c.get('kind') not in ('hist', 'wrap'):
+        if c.get('kind') not in ('hist', 'wrap', 'wrap-pipeline', 'net'):
             return 'unknown case kind %r' % c.get('kind')
-    check_cases(ctx, rep, cs)
+    check_cases(ctx, rep, [c for c in cs if c.get('kind') != 'net'])
+    check_net_cases(ctx, rep, [c for c in cs if c.get('kind') == 'net'])
     bad = [v for v in rep.violations if v.get('finding') != KF_WRAP]
     if bad:
         return bad[0]['what']
     if rep.disagreements:
         return 'model/implementation disagreement at ' + rep.disagreements[0]['where']
     if rep.violations:
-        return rep.violations[0]['what'] + ' (known finding %s)' % KF_WRAP
+        return rep.violations[0]['what'] + ' (known finding %s)' % rep.violations[0]['finding']
     return None
